@@ -6,7 +6,7 @@ From Coq Require Import Reals QArith Qabs List.
 From OV.base Require Import Num.
 From OV.gen Require Import Gen_TensorMath Gen_TensorMathFun.
 From OV.model Require Import M_C08 M_C12.
-From OV.proofs Require Import L_C08 L_C12.
+From OV.proofs Require Import L_C08 L_C12 L_C12_RD.
 Import ListNotations.
 Notation M := (mat R).
 Local Open Scope R_scope.
@@ -41,7 +41,41 @@ Proof. exact exp_relative_difference_exact. Qed.
 Theorem C12_log_relative_difference : forall l1 l2, 0 < l1 -> 0 < l2 -> l1 <> l2 ->
   @_relative_log_difference_no_tolerance_check R NumR l1 l2 = (ln l1 - ln l2) / (l1 - l2).
 Proof. exact log_relative_difference_exact. Qed.
-(* NOT PROVED: truncation error of _relative_log_difference_taylor; _log_relative_difference / _pow_relative_difference (argsort). *)
+(* (c') round 3 -- the Taylor branch: for |l1 - l2| <= 0.05 min(l1, l2) (the range where _relative_log_difference selects it) the
+   series truncated after r^9 is within 1e-16 RELATIVE of the divided difference of ln (below the binary64 unit roundoff), and never
+   above it; hence the branching kernel is accurate to 1e-16 relative for all positive distinct arguments *)
+Theorem C12_log_taylor_truncation : forall l1 l2, 0 < l1 -> 0 < l2 -> l1 <> l2 -> Rabs (l1 - l2) <= 5 / 100 * Rmin l1 l2 ->
+  Rabs (@_relative_log_difference_taylor R NumR l1 l2 - (ln l1 - ln l2) / (l1 - l2))
+  <= 1 / 10000000000000000 * Rabs ((ln l1 - ln l2) / (l1 - l2)).
+Proof. exact log_taylor_truncation. Qed.
+Theorem C12_log_taylor_one_sided : forall l1 l2, 0 < l1 -> 0 < l2 -> l1 <> l2 -> Rabs (l1 - l2) <= 5 / 100 * Rmin l1 l2 ->
+  0 < @_relative_log_difference_taylor R NumR l1 l2 <= (ln l1 - ln l2) / (l1 - l2).
+Proof. exact log_taylor_one_sided. Qed.
+Theorem C12_relative_log_difference_accuracy : forall l1 l2, 0 < l1 -> 0 < l2 -> l1 <> l2 ->
+  Rabs (@_relative_log_difference R NumR l1 l2 - (ln l1 - ln l2) / (l1 - l2))
+  <= 1 / 10000000000000000 * Rabs ((ln l1 - ln l2) / (l1 - l2)).
+Proof. exact relative_log_difference_accuracy. Qed.
+(* (c'') round 3 -- the kernels wired into log_symm / pow_symm (argsort by magnitude, log1p / expm1, nearOne and xIsZero selects),
+   now GENERATED from the source: both operand orders and both ratio formulas give the divided difference; on coinciding
+   arguments the power kernel returns the derivative m x^(m-1).  x^m is exp(m ln x) = Rpower x m (positive arguments). *)
+Theorem C12_log_relative_difference_argsort : forall l1 l2, 0 < l1 -> 0 < l2 -> l1 <> l2 ->
+  @_log_relative_difference R NumR l1 l2 = (ln l1 - ln l2) / (l1 - l2).
+Proof. exact log_relative_difference_argsort_exact. Qed.
+Theorem C12_pow_relative_difference_argsort : forall l1 l2 m, 0 < l1 -> 0 < l2 -> l1 <> l2 ->
+  @_pow_relative_difference R NumR l1 l2 m = (Rpower l1 m - Rpower l2 m) / (l1 - l2).
+Proof. exact pow_relative_difference_argsort_exact. Qed.
+Theorem C12_pow_relative_difference_confluent : forall l m, 0 < l -> @_pow_relative_difference R NumR l l m = m * Rpower l (m - 1).
+Proof. exact pow_relative_difference_argsort_confluent. Qed.
+(* NOT PROVED: negative arguments of _pow_relative_difference (integer powers of indefinite tensors: Rpower is only x^m for x > 0);
+   binary64 rounding of the kernels (log1p / expm1 are modelled as ln(1+x) / exp(y)-1 over R; their floating-point advantage is
+   only measured: the implementation's values are compared with 60-digit divided differences on every run). *)
+Example C12_rd_nonvacuous :
+  (0 < 1 /\ 0 < 102 / 100 /\ 1 <> 102 / 100 /\ Rabs (1 - 102 / 100) <= 5 / 100 * Rmin 1 (102 / 100))
+  /\ @_relative_log_difference_taylor R NumR 1 (102 / 100) < (ln 1 - ln (102 / 100)) / (1 - 102 / 100)
+  /\ @_pow_relative_difference R NumR 2 2 3 = 3 * Rpower 2 (3 - 1)
+  /\ (Rabs (@_log_relative_difference R NumR 3 4 - 2876820724517809 / 10000000000000000) <= 1 / 1000000000000000).
+Proof. exact rd_nonvacuous. Qed.
+
 (* (d) verified result checkers *)
 Local Open Scope Q_scope.
 Theorem C12_checker_sound_eig : forall A lam V tol, check_eig A lam V tol = true ->
@@ -68,6 +102,8 @@ Example C12_nonvacuous : check_eig [[2; 0; 0]; [0; 3; 0]; [0; 0; 5]] [2; 3; 5] (
 Proof. split; [exact check_eig_accepts | exact check_eig_rejects]. Qed.
 
 Print Assumptions C12_pade_bound.
+Print Assumptions C12_log_taylor_truncation.
+Print Assumptions C12_pow_relative_difference_argsort.
 Print Assumptions C12_inv_right.
 Print Assumptions C12_sqrt_relative_difference.
 Print Assumptions C12_checker_sound_eig.
